@@ -1,5 +1,7 @@
 """C16 -- names are stored and compared faithfully at every length (spec/Ident.tla)."""
 import json
+import os
+import time
 import vlib
 import vseam
 
@@ -33,6 +35,11 @@ VALSZ = 4
 def build():
     return [("c", vseam.build_seam_driver("ident", ["ident.c"], C_SRC)),
             ("cxx", vseam.build_seam_driver("ident_cxx", ["ident_cxx.cpp"], C_SRC, CXX_SRC, cxx=True))]
+
+
+def report(ck, sig, detail):
+    vlib.ensure(os.path.join(vlib.WORK, "violations"))     # other runs may prune _work concurrently
+    return ck.violation(sig, detail)
 
 
 def match(exp, obs, step, rec, prev):
@@ -242,44 +249,74 @@ def callseq(beh):
     return json.dumps([(s["a"], s.get("arg")) for s in beh], sort_keys=True)
 
 
-def validate(ck, tag, hist, recs, api):
-    """TLC decides whether the recorded execution is a behaviour of Ident.  Returns True when accepted."""
+def validate(tag, hist, recs, api, max_rejects=6):
+    """TLC decides whether the recorded executions are behaviours of Ident.  A rejected history is reported and
+    taken out, the rest is validated again.  Returns (accepted histories, [(signature, detail)], transitions, events)."""
     events = vlib.merge_trace(hist, recs)
-    ok, matched, tres = vlib.validate_trace("Trace_Ident", events, tag="Trace_Ident_" + tag, xss="1g")
-    ck.cov["transitions"] += tres.generated
-    ck.notes.setdefault("trace_events", 0)
-    ck.notes["trace_events"] += len(events)
-    if ok:
-        return True
-    ok2, matched2, _ = vlib.validate_trace("Trace_Ident", events, tag="Trace_Ident_" + tag, xss="1g")
-    if ok2:
-        return True
-    matched = min(matched, matched2)
-    ev = events[matched] if matched < len(events) else None
-    prev = events[matched - 1] if matched and ev and events[matched - 1].get("b") == ev.get("b") else None
-    if ev is None:
-        sig = "%s:trace:short" % api
-    elif ev["a"] in ("Crash", "Hang", "Missing", "Garbled"):
-        st = hist[ev["b"]][ev["i"]]
-        sig = "%s:%s:%s:%s" % (api, st["a"], step_class(st, prev), ev["a"].lower())
-    else:
-        sig = "%s:%s:%s:rejected" % (api, ev["a"], step_class(ev, prev))
-    slim = dict(ev or {})
-    ck.violation(sig, {"binding": "B(trace validation)", "api": api, "matched_prefix": matched,
-                       "rejected_event": json.loads(json.dumps(slim)[:20000]) if len(json.dumps(slim)) < 20000 else
-                       {"a": slim.get("a"), "b": slim.get("b"), "i": slim.get("i"), "note": "event too large, see behaviour"},
-                       "behaviour": hist[ev["b"]][:ev["i"] + 1] if ev else None})
-    return False
+    nev = len(events)
+    found = []
+    trans = 0
+    dropped = set()
+    while True:
+        evs = [e for e in events if e["b"] not in dropped]
+        if not evs:
+            break
+        ok, matched, tres = vlib.validate_trace("Trace_Ident", evs, tag="Trace_Ident_" + tag, xss="1g")
+        trans += tres.generated
+        if ok:
+            break
+        ok2, matched2, _ = vlib.validate_trace("Trace_Ident", evs, tag="Trace_Ident_" + tag, xss="1g")
+        if ok2:
+            break
+        matched = min(matched, matched2)
+        ev = evs[matched] if matched < len(evs) else None
+        if ev is None:
+            found.append(("%s:trace:short" % api, {"binding": "B(trace validation)", "api": api, "matched_prefix": matched}))
+            break
+        prev = evs[matched - 1] if matched and evs[matched - 1].get("b") == ev.get("b") else None
+        if ev["a"] in ("Crash", "Hang", "Missing", "Garbled"):
+            st = hist[ev["b"]][ev["i"]]
+            sig = "%s:%s:%s:%s" % (api, st["a"], step_class(st, prev), ev["a"].lower())
+        else:
+            sig = "%s:%s:%s:rejected" % (api, ev["a"], step_class(ev, prev))
+        small = len(json.dumps(ev)) < 20000
+        found.append((sig, {"binding": "B(trace validation)", "api": api, "matched_prefix": matched,
+                            "rejected_event": ev if small else {"a": ev.get("a"), "b": ev.get("b"), "i": ev.get("i"),
+                                                                "note": "event too large, see behaviour"},
+                            "previous_event": prev if prev and len(json.dumps(prev)) < 20000 else None,
+                            "behaviour": hist[ev["b"]][:ev["i"] + 1]}))
+        dropped.add(ev["b"])
+        if len(dropped) >= max_rejects:
+            break
+    return len(hist) - len(dropped) if len(dropped) < max_rejects else 0, found, trans, nev
 
 
 def run(tier):
+    from concurrent.futures import ThreadPoolExecutor
     cfg = CFG[tier]
     ck = vlib.Check(PID, tier)
     drivers = build()
+    pool = ThreadPoolExecutor(max_workers=8)
 
     # 1. the storage design (Tier 2) implements the value meaning (Tier 1) for all histories in the bound
-    res = vlib.tlc("MC_Ident", cfg["mc"], coverage=(tier == "thorough"))
-    ck.add_tlc(res, "exhaustive " + cfg["mc"])
+    #    (runs while the bindings below are exercised)
+    mc = pool.submit(vlib.tlc, "MC_Ident", cfg["mc"], coverage=(tier == "thorough"), workers=max(4, vlib.NCPU // 2))
+
+    # 3. binding B (started first, needs no TLC export): recorded executions at production sizes validated by TLC
+    hist = gen_histories(ck, cfg["nhist"], cfg["steps"])
+    big = gen_big(ck, cfg["big"])
+
+    def trace_job(api, exe, tag, hs):
+        recs2 = vseam.run_parallel(exe, hs, nproc=2)
+        acc, found, trans, nev = validate("%s_%s" % (api, tag), hs, recs2, api)
+        by2 = vlib.group_records(recs2)
+        keys = set()
+        for b, beh in enumerate(hs):
+            if nontrivial(by2.get(b, [])):
+                keys.add(api + callseq(beh) if tag == "big" else callseq(beh))
+        return api, tag, len(hs), acc, found, trans, nev, keys
+    tjobs = [pool.submit(trace_job, api, exe, tag, hs)
+             for api, exe in drivers for tag, hs in (("main", hist), ("big", big))]
 
     # 2. binding A: every transition of the control skeleton replayed into the C and the C++ code
     gen = vlib.tlc("Gen_Ident", cfg["gen"], workers=4)
@@ -287,45 +324,54 @@ def run(tier):
         raise vlib.MachineryError("behaviour export failed: %s %s" % (gen.error, gen.violation))
     behs = vlib.parse_behaviours(gen.out)
     gen.out = ""
+    vlib.log("C16 %d behaviours exported in %.1fs" % (len(behs), gen.wall))
     nt = set()
     ck.notes["replayed_behaviours"] = {}
     ck.notes["replay_mismatches"] = {}
-    for api, exe in drivers:
-        recs = vseam.run_parallel(exe, behs)
+
+    def replay_job(api, exe):
+        recs = vseam.run_parallel(exe, behs, nproc=4)
         by = vlib.group_records(recs)
         mms = vlib.compare(behs, recs, match)
+        keys = set(callseq(beh) for b, beh in enumerate(behs) if nontrivial(by.get(b, [])))
+        return api, mms, [prev_of(by, mm) for mm in mms], keys
+    rjobs = [pool.submit(replay_job, api, exe) for api, exe in drivers]
+    for job in rjobs:
+        api, mms, prevs, keys = job.result()
         seen = {}
-        for mm in mms:
-            sig = signature(mm, prev_of(by, mm), api)
+        for mm, prev in zip(mms, prevs):
+            sig = signature(mm, prev, api)
             seen[sig] = seen.get(sig, 0) + 1
             if seen[sig] > 2:
                 continue          # same action, same class, same symptom: two written-out cases are enough
-            ck.violation(sig,
+            report(ck, sig,
                          {"binding": "A(replay)", "api": api, "behaviour": behs[mm["b"]][:mm["i"] + 1], "step": mm["i"],
                           "why": mm["why"], "record": mm["rec"]})
-        for b, beh in enumerate(behs):
-            if nontrivial(by.get(b, [])):
-                nt.add(callseq(beh))
+        nt |= keys
         ck.cov["evaluations"] += len(behs)
         ck.notes["replayed_behaviours"][api] = len(behs)
         ck.notes["replay_mismatches"][api] = len(mms)
         ck.notes.setdefault("replay_mismatch_signatures", {}).update(seen)
+        vlib.log("C16 replay %s: %d behaviours, %d mismatches (t=%.0fs)" % (api, len(behs), len(mms), time.time() - ck.t0))
     samples = [vlib.sample_repr(b) for b in behs[len(behs) // 2: len(behs) // 2 + 2]]
 
-    # 3. binding B: recorded executions at production sizes validated by TLC
-    hist = gen_histories(ck, cfg["nhist"], cfg["steps"])
-    big = gen_big(ck, cfg["big"])
     accepted = 0
-    for api, exe in drivers:
-        for tag, hs in (("main", hist), ("big", big)):
-            recs2 = vseam.run_parallel(exe, hs, nproc=4)
-            if validate(ck, "%s_%s" % (api, tag), hs, recs2, api):
-                accepted += len(hs)
-            by2 = vlib.group_records(recs2)
-            for b, beh in enumerate(hs):
-                if nontrivial(by2.get(b, [])):
-                    nt.add(api + callseq(beh) if tag == "big" else callseq(beh))
-            ck.cov["evaluations"] += len(hs)
+    ck.notes["trace_events"] = 0
+    for job in tjobs:
+        api, tag, n, acc, found, trans, nev, keys = job.result()
+        for sig, det in found:
+            report(ck, sig, det)
+        accepted += acc
+        nt |= keys
+        ck.cov["transitions"] += trans
+        ck.cov["evaluations"] += n
+        ck.notes["trace_events"] += nev
+        vlib.log("C16 traces %s/%s: %d histories, %d accepted (t=%.0fs)" % (api, tag, n, acc, time.time() - ck.t0))
+
+    res = mc.result()
+    ck.add_tlc(res, "exhaustive " + cfg["mc"])
+    vlib.log("C16 model checked: %d states, %d transitions, %.1fs" % (res.distinct, res.generated, res.wall))
+    pool.shutdown()
     ck.cov["traces_validated_against_impl"] = accepted
     ck.cov["distinct_nontrivial"] = len(nt)
     ck.cov["exhaustive"] = True
